@@ -99,6 +99,8 @@ type simCall struct {
 	abandoned bool
 	dupOf     *simCall
 	executed  bool
+	key       string
+	post      uint64
 }
 
 type simEvent struct {
@@ -135,6 +137,7 @@ type Sim struct {
 	inbox   []func()
 	calls   []*simCall
 	seq     uint64
+	postSeq uint64
 	events  []*simEvent // heap by (at, seq)
 	evSeq   uint64
 	blocked map[[2]uint64]bool // directed link from->to blocked
@@ -279,6 +282,9 @@ func newSim(cfg W3Cfg, out *Outcome, wantLog bool) *Sim {
 	seedRuntime(cfg.Seed)
 	reseedRaftRand(cfg.Seed)
 	resetUUIDGenerator(cfg.Seed)
+	if os.Getenv("VERIF_DEBUG") != "" {
+		fmt.Fprintf(realStderr, "uuid probe: %s %s gen=%T\n", uuid.NewV4(), uuid.NewV4(), uuidGlobal)
+	}
 	simrt.SetOrder(cfg.Seed, 2)
 	simrt.SetMode(simrt.ModeBubble)
 	so := cfg.SnapshotOffset
@@ -287,12 +293,12 @@ func newSim(cfg W3Cfg, out *Outcome, wantLog bool) *Sim {
 	}
 	raft.VerifSetSnapshotOffset(so)
 	yp := cfg.YieldP
+	yseed := s.ryield.Uint64()
 	simrt.YieldFn = func(site int) {
 		if yp > 0 {
-			s.mu.Lock()
-			y := s.ryield.Intn(256) < yp
-			s.mu.Unlock()
-			if y {
+			// a function of the seed, the goroutine's label and its own draw count: no shared stream
+			z := mix64(yseed ^ runtimeVerifGetTag()*0x9e3779b97f4a7c15 ^ runtimeVerifNextCount()<<20 ^ uint64(site))
+			if int(z%256) < yp {
 				runtime.Gosched()
 			}
 		}
@@ -429,14 +435,14 @@ func (s *Sim) startNode(n *simNode) error {
 	n.server = anndb.NewServer(cfg)
 	n.alive = true // hooks fired during setup belong to this incarnation
 	var err error
-	func() {
+	withTag(n.id*1000+uint64(n.inc), func() {
 		defer func() {
 			if r := recover(); r != nil {
 				err = fmt.Errorf("panic in %s: %v", topFrame(debug.Stack()), r)
 			}
 		}()
 		err = n.server.VerifSetup()
-	}()
+	})
 	if err != nil {
 		n.alive = false
 		n.dead[n.inc] = true
@@ -479,6 +485,7 @@ func (s *Sim) startNode(n *simNode) error {
 		srv := n.server
 		inc := n.inc
 		go func() {
+			runtimeVerifSetTag(n.id*1000 + uint64(inc))
 			simrt.Y(0)
 			err := srv.JoinCluster()
 			s.post(func() {
@@ -629,9 +636,18 @@ func (s *Sim) newCall(ctx context.Context, from uint64, target, method string, r
 	if dl, ok := ctx.Deadline(); ok {
 		c.deadline, c.hasDL = dl, true
 	}
+	// canonical sort key: sender, then the raft group (one run loop per group
+	// sends its messages sequentially), then method; the posting order between
+	// different senders / groups is not allowed to matter
+	c.key = method
+	if method == "/anndb_pb.RaftTransport/Receive" {
+		if rm, ok := req.(*pb.RaftMessage); ok {
+			c.key = "!" + string(rm.GetGroupId())
+		}
+	}
 	s.mu.Lock()
-	s.seq++
-	c.seq = s.seq
+	s.postSeq++
+	c.post = s.postSeq
 	s.calls = append(s.calls, c)
 	s.mu.Unlock()
 	return c
@@ -856,6 +872,9 @@ func (s *Sim) route(c *simCall) {
 			s.onRaftMsg(src, rm.To, group, rm)
 		}
 		s.out.Stat("raft_messages", 1)
+		if os.Getenv("VERIF_DEBUG") == "2" {
+			s.logf("raft#%d n%d->n%d g=%s %s term=%d idx=%d logterm=%d commit=%d ents=%d rej=%v", c.seq, s.nodeIdx(c.from), s.nodeIdx(rm.To), shortG(group), rm.Type, rm.Term, rm.Index, rm.LogTerm, rm.Commit, len(rm.Entries), rm.Reject)
+		}
 	} else {
 		s.logf("rpc#%d n%d -> %s %s", c.seq, s.nodeIdx(c.from), c.toAddr, c.method)
 	}
@@ -929,6 +948,7 @@ func (s *Sim) deliver(c *simCall, tgt *simNode, inc int, isRaft bool) {
 	c.executed = true
 	go func() {
 		defer cancel()
+		runtimeVerifSetTag(tgt.id*1000 + uint64(inc))
 		resp, err := s.serve(tgt, ctx, c.method, c.req, c.reqType)
 		s.post(func() {
 			if c.dupOf != nil {
@@ -998,9 +1018,14 @@ func (s *Sim) pump() {
 			if calls[i].from != calls[j].from {
 				return calls[i].from < calls[j].from
 			}
-			return calls[i].seq < calls[j].seq
+			if calls[i].key != calls[j].key {
+				return calls[i].key < calls[j].key
+			}
+			return calls[i].post < calls[j].post
 		})
 		for _, c := range calls {
+			s.seq++
+			c.seq = s.seq
 			s.route(c)
 		}
 	}
@@ -1078,6 +1103,7 @@ func (s *Sim) client(n *simNode, name string, timeout time.Duration, fn func(ctx
 	}
 	s.logf("client n%d %s", n.idx, name)
 	go func() {
+		runtimeVerifSetTag(n.id*1000 + uint64(op.nodeInc))
 		simrt.Y(0)
 		ctx, cancel := context.WithTimeout(context.Background(), timeout)
 		defer cancel()
